@@ -238,23 +238,39 @@ theorem Plain.remove {g₁ g₂ : List TagInfo} {x : TagInfo} (hp : Plain (g₁ 
   · exact Or.inl h
   · exact Or.inr (Or.inr h)
 
-theorem applyPositionRestrictions_plain {g : List TagInfo} (hp : Plain g) : applyPositionRestrictions g = g := by
+theorem flatMap_congr_mem {α β : Type _} {f g : α → List β} :
+    ∀ (l : List α), (∀ x ∈ l, f x = g x) → l.flatMap f = l.flatMap g
+  | [], _ => rfl
+  | a :: l, h => by
+    rw [List.flatMap_cons, List.flatMap_cons, h a List.mem_cons_self,
+      flatMap_congr_mem l (fun x hx => h x (List.mem_cons_of_mem _ hx))]
+
+/-- no restricted item: `apply_position_restrictions` changes nothing -/
+theorem applyPositionRestrictions_noPos {g : List TagInfo} (hp : ∀ x ∈ g, x.pos = none) :
+    applyPositionRestrictions g = g := by
   have : g.filter (·.pos.isSome) = [] := by
     rw [List.filter_eq_nil_iff]
     intro x hx
-    simp [(hp x hx).2]
+    simp [hp x hx]
   simp [applyPositionRestrictions, this]
 
-theorem emitGroup_plain (indent : Nat) : ∀ (g : List TagInfo), Plain g → emitGroup indent g 0 = g.flatMap (chunk indent)
-  | [], _ => rfl
-  | x :: g, hp => by
-    have hx := (hp x List.mem_cons_self).1
-    have ih := emitGroup_plain indent g (fun y hy => hp y (List.mem_cons_of_mem _ hy))
-    simp [emitGroup, hx, ih, chunk]
+theorem applyPositionRestrictions_plain {g : List TagInfo} (hp : Plain g) : applyPositionRestrictions g = g :=
+  applyPositionRestrictions_noPos (fun x hx => (hp x hx).2)
+
+/-- groups without position restrictions (comments allowed): per-item contributions in sorted order -/
+theorem addGroup_noPos (indent : Nat) (g : List TagInfo) (hp : ∀ x ∈ g, x.pos = none) :
+    addGroup indent g = (g.mergeSort tagLe).flatMap fun item =>
+      if item.isComment then (if item.included then [] else List.replicate item.startOff '\n' ++ item.text)
+      else chunk indent item := by
+  unfold addGroup
+  rw [applyPositionRestrictions_noPos (fun x hx => hp x (List.mem_mergeSort.mp hx))]
+  rfl
 
 theorem addGroup_plain (indent : Nat) (g : List TagInfo) (hp : Plain g) :
     addGroup indent g = (g.mergeSort tagLe).flatMap (chunk indent) := by
-  unfold addGroup
-  rw [applyPositionRestrictions_plain hp.mergeSort, emitGroup_plain indent _ hp.mergeSort]
+  rw [addGroup_noPos indent g (fun x hx => (hp x hx).2)]
+  apply flatMap_congr_mem
+  intro x hx
+  simp [(hp.mergeSort x hx).1]
 
 end A2l.Tree
